@@ -105,7 +105,8 @@ ASSUMPTIONS = [
     "no setattr/exec/eval/globals() (the loader checks the package contains none); "
     "user callables obey the documented signatures",
     "numpy/scipy routines behave as the frozen effects table says (fresh / view / in-place); "
-    "np.clip(a, lo, hi) with lo <= hi returns values in [lo, hi] exactly",
+    "np.clip(a, lo, hi) with lo <= hi returns values in [lo, hi] exactly for every non-NaN a (np.clip(nan) is nan: an "
+    "objective returning +inf makes DCSRCH hand back a nan step, outside the finite-valued objectives the properties quantify over)",
     "exceptions other than those explicitly modelled are not used for control flow",
     "static verdict on structural clauses only: the numerical part of the property listed "
     "under not_decided is NOT established by this check",
